@@ -51,7 +51,9 @@ def _run_bounds(ctx, sizes, chunk, backends):
         next(it, None)
         first = [as_list(y) for y in r.iter_chunks()]
         second = [as_list(y) for y in r.iter_chunks()]
-        return first if first == second else [['passes differ', first, second]]
+        if first != second:
+            raise ValueError('the chunk iterator of a reader yields %r on one pass and %r on the next' % (first, second))
+        return first
     res = {}
     res['direct'] = (as_list(_get_chunk_bounds(list(sizes), chunk)), None)
     rate = chunk / 600.0
